@@ -1,7 +1,7 @@
 (** C20 — Length-prefixed record streams decode identically under every chunking.
     This file contains statements only; every proof is [exact <lemma>]. *)
 From RN Require Import Base.Res Codec.Varint Codec.BufReader Codec.VarintBits Codec.VarintProofs
-  Codec.BufReaderProofs Codec.FileReaderProofs.
+  Codec.BufReaderProofs Codec.FileReaderProofs Codec.ScanProofs.
 Local Open Scope N_scope.
 
 (** the varint writer and reader agree on every 64-bit value, at every offset, whatever
@@ -67,3 +67,34 @@ Proof. exact file_reader_read_next. Qed.
 Theorem C20_file_reader_end : forall pre pad,
   pad_ok pad -> fmr_read_len (mkFmr (pre ++ pad) (length pre) (length pre)) = Err.
 Proof. exact file_reader_end. Qed.
+
+(** Reading stops at the first zero length and never earlier: the end-of-log scan
+    ([move_to_index_by_count] with the repaired end-marker test) counts every record and returns the
+    byte length of the record area, for EVERY chunking of the stream (record ending exactly on a
+    chunk boundary, varint split across chunks, records larger than the buffer ...) *)
+Theorem C20_scan_stops_at_first_zero : forall bodies tail chunks count cur0,
+  Forall body_ok bodies -> all_bytes tail ->
+  Forall (fun ch => ch <> []) chunks ->
+  concat chunks = frames bodies ++ 0 :: tail ->
+  blen bodies < count ->
+  scan_by_count mbr_at_end_marker chunks mbr_new 0 count cur0
+    = Ok (cur0 + blen (frames bodies), blen bodies).
+Proof. exact scan_stops_at_first_zero. Qed.
+
+(** ... and stops after exactly [count] records when asked to (strip_log_to) *)
+Theorem C20_scan_stops_at_count : forall bodies tail chunks count cur0,
+  Forall body_ok bodies -> all_bytes tail ->
+  Forall (fun ch => ch <> []) chunks ->
+  concat chunks = frames bodies ++ tail ->
+  0 < count <= blen bodies ->
+  scan_by_count mbr_at_end_marker chunks mbr_new 0 count cur0
+    = Ok (cur0 + blen (frames (firstn (N.to_nat count) bodies)), count).
+Proof. exact scan_stops_at_count. Qed.
+
+(** the unrepaired end test ([MessageBufReader::is_empty], which also fires on a merely drained
+    buffer) violates it: a record framed to exactly 1024 bytes read as one chunk (defect 1) *)
+Theorem C20_scan_stops_at_first_zero_refuted : exists bodies tail chunks count,
+  Forall body_ok bodies /\ all_bytes tail /\ Forall (fun ch => ch <> []) chunks /\
+  concat chunks = frames bodies ++ 0 :: tail /\ blen bodies < count /\
+  scan_by_count mbr_is_empty chunks mbr_new 0 count 0 <> Ok (0 + blen (frames bodies), blen bodies).
+Proof. exact scan_stops_at_first_zero_refuted. Qed.
